@@ -30,7 +30,6 @@ package datamatrix
 //@ func encodeText
 //@   attr unwind_abstract select
 //@   attr fresh_result ? 0 256
-//@   requires len(content) <= 100000000
 //@   ensures len(result) == 0 || fresh(result)
 //@   ensures dmB(bytes(content), len(content), len(content)) && len(result) == dmO(bytes(content), len(content), len(content))
 //@   ensures forall b int :: 0 <= b && b < len(content) && dmB(bytes(content), len(content), b) ==> dmCW(result, dmO(bytes(content), len(content), b), bytes(content), len(content), b)
